@@ -17,6 +17,13 @@ mod verif_header {
         core::arch::x86_64::CpuidResult { eax: 0, ebx: 0, ecx: 0, edx: 0 }
     }
 
+    /// replaces `String::from_utf8_lossy` in the harnesses WITHOUT name fields / `.dd`: there it is
+    /// only called to quote the offending text in error messages (error TEXT is not part of the
+    /// contract; `Utf8Chunks` over a symbolic line is out of CBMC's reach: > 900 s)
+    fn stub_lossy(_v: &[u8]) -> std::borrow::Cow<'_, str> {
+        std::borrow::Cow::Borrowed("")
+    }
+
     // ------------------------------------------------------------------ templates
 
     /// position of the `n`-th (0-based) placeholder `#` in a template (evaluated at compile time)
@@ -32,7 +39,7 @@ mod verif_header {
             }
             i += 1;
         }
-        panic!("template has too few holes")
+        usize::MAX // no such hole: using it as an index fails
     }
     const fn count_lines<const L: usize>(t: &[u8; L]) -> usize {
         let mut i = 0;
@@ -86,10 +93,12 @@ mod verif_header {
         ends: &'a [usize],
         next: usize,
         pos: usize,
+        /// number of lines before end of file (<= ends.len(); for truncated inputs)
+        limit: usize,
     }
     impl<'a> LineRd<'a> {
         fn new(buf: &'a [u8], ends: &'a [usize]) -> Self {
-            LineRd { buf, ends, next: 0, pos: 0 }
+            LineRd { buf, ends, next: 0, pos: 0, limit: ends.len() }
         }
         fn exhausted(&self) -> bool {
             self.pos == self.buf.len()
@@ -114,17 +123,26 @@ mod verif_header {
         }
         fn read_until(&mut self, byte: u8, out: &mut Vec<u8>) -> io::Result<usize> {
             assert!(byte == b'\n');
-            if self.next >= self.ends.len() {
+            if self.next >= self.limit || self.next >= self.ends.len() {
                 return Ok(0);
             }
             let e = self.ends[self.next];
             let n = e - self.pos;
-            out.extend_from_slice(&self.buf[self.pos..e]);
-            self.pos = e;
+            // byte-wise copy into a buffer that never has to grow: CBMC keeps the concrete bytes
+            // of the line as constants (memcpy / realloc are whole-array operations to CBMC
+            // which hide every byte of the line, including the key, from constant propagation)
+            out.reserve(MAX_LINE);
+            while self.pos < e {
+                out.push(self.buf[self.pos]);
+                self.pos += 1;
+            }
             self.next += 1;
             Ok(n)
         }
     }
+
+    /// upper bound on the length of a template line including its `\n`
+    const MAX_LINE: usize = 40;
 
     fn digit(c: u8) -> bool {
         c >= b'0' && c <= b'9'
@@ -134,10 +152,11 @@ mod verif_header {
     // Written from the documentation of the accessors of `DumpHeader` (import.rs:359-471) and of
     // `import()` (import.rs:474-495), not from the validation code.
 
-    /// (I) for a header with at most 4 support variables / 4 roots
-    fn check_invariant(h: &DumpHeader) {
-        let n = h.ids.len();
-        assert!(n <= 4, "template bound");
+    /// (I) for a header with `NS` support variables and `NR` roots (the numbers announced by the
+    /// template; compile-time constants so that the loops below are concrete for CBMC)
+    fn check_invariant<const NS: usize, const NR: usize>(h: &DumpHeader) {
+        let n = NS;
+        assert!(h.ids.len() == NS, "(I) num_support_vars() == announced .nsuppvars");
         // support_vars(): "integers in strictly ascending order", indices of the original numbering
         let mut i = 0;
         while i < n {
@@ -180,8 +199,8 @@ mod verif_header {
         // var_names(): "If present, the returned slice contains num_vars() many elements"
         assert!(h.varnames.is_empty() || h.varnames.len() == h.nvars as usize, "(I) |varnames| == nvars if present");
         // root ids: non-zero node ids 1..=nnodes, sign = complement (what import() indexes with)
-        let m = h.rootids.len();
-        assert!(m <= 4, "template bound");
+        let m = NR;
+        assert!(h.rootids.len() == NR, "(I) num_roots() == announced .nroots");
         let mut i = 0;
         while i < m {
             let r = h.rootids[i];
@@ -193,25 +212,636 @@ mod verif_header {
         assert!(h.rootnames.is_empty() || h.rootnames.len() == m, "(I) |rootnames| == nroots if present");
     }
 
-    // ------------------------------------------------------------------ template T1
-    // 3 variables, support {0, 2} (variable 2 on level 0, variable 0 on level 1), 3 nodes, 2 roots.
+    // ------------------------------------------------------------------ harness helpers
 
+    fn blank(c: u8) -> bool {
+        c == b' ' || c == b'\t'
+    }
+
+    /// the real loader on a template instance; second component: input consumed up to the end
+    /// (the templates end with the `.nodes` line, where `import()` expects the cursor)
+    fn load_from(buf: &[u8], ends: &[usize]) -> (io::Result<DumpHeader>, bool) {
+        let mut inp = LineRd::new(buf, ends);
+        let r = DumpHeader::load(&mut inp);
+        let done = inp.exhausted();
+        (r, done)
+    }
+
+    /// metadata of template T1 that no harness varies: ASCII mode, no variable info
+    fn check_t1_mode(h: &DumpHeader) {
+        assert!(h.ascii, "metadata: .mode A");
+        assert!(h.varinfo == VarInfo::None, "metadata: .varinfo 4");
+        assert!(h.dd.is_empty() && h.auxids.is_empty() && h.rootnames.is_empty() && h.varnames.is_empty());
+    }
+
+    /// T1: support {0, 2}, variable 0 on level 1, variable 2 on level 0
+    fn check_t1_support(h: &DumpHeader) {
+        assert!(h.ids.len() == 2 && h.ids[0] == 0 && h.ids[1] == 2, "metadata: .ids 0 2");
+        assert!(h.permids.len() == 2 && h.permids[0] == 1 && h.permids[1] == 0, "metadata: .permids 1 0");
+        assert!(h.support_var_order[0] == 2 && h.support_var_order[1] == 0, "support order: level 0 = var 2, level 1 = var 0");
+    }
+
+    // ------------------------------------------------------------------ template T1
+    // 3 variables, support {0, 2} (variable 2 on level 0, variable 0 on level 1), 3 nodes, 2 roots:
+    //   .ver DDDMP-2.0 / .mode A / .varinfo 4 / .nnodes 3 / .nvars 3 / .nsuppvars 2 / .ids 0 2 /
+    //   .permids 1 0 / .nroots 2 / .rootids 2 -3 / .nodes
+    // Each harness opens 1-2 positions (`#`).  A byte hole ranges over ALL bytes except `\n`.
+
+    // ---------------- .rootids
     template!(t_root1, 1, b".ver DDDMP-2.0\n.mode A\n.varinfo 4\n.nnodes 3\n.nvars 3\n.nsuppvars 2\n.ids 0 2\n.permids 1 0\n.nroots 2\n.rootids -# 2\n.nodes\n");
 
+    /// `.rootids -B 2`, B any byte but `\n`.  Documented: root ids are non-zero decimal integers
+    /// (negative = complemented) referring to nodes 1..=nnodes (=3).
+    /// (P) no panic; (R) anything but a digit 1..=3 => Err; digit 1..=3 => Ok, (I), metadata.
     #[kani::proof]
-    #[kani::unwind(20)]
+    #[kani::unwind(17)]
     #[kani::stub(alloc::fmt::format, stub_format)]
     #[kani::stub(core::arch::x86_64::__cpuid_count, stub_cpuid)]
-    fn x_mid_linerd() {
+    #[kani::stub(alloc::string::String::from_utf8_lossy, stub_lossy)]
+    fn rootids_one_byte() {
         use t_root1::*;
+        let mut buf = T;
+        let c: u8 = kani::any();
+        kani::assume(c != b'\n');
+        buf[H0] = c;
+        let (r, done) = load_from(&buf, &E);
+        let valid = c >= b'1' && c <= b'3';
+        match &r {
+            Ok(h) => {
+                assert!(valid, "(R) root id 0, > nnodes, or malformed must be rejected");
+                check_invariant::<2, 2>(h);
+                check_t1_mode(h);
+                check_t1_support(h);
+                assert!(h.nnodes == 3 && h.nvars == 3);
+                assert!(h.rootids.len() == 2 && h.rootids[0] == -((c - b'0') as isize) && h.rootids[1] == 2, "metadata: .rootids");
+                assert!(done, "cursor is positioned after the .nodes line");
+            }
+            Err(_) => assert!(!valid, "a header satisfying all documented requirements is accepted"),
+        }
+        kani::cover!(r.is_ok() && c == b'3', "in range, upper end");
+        kani::cover!(r.is_ok() && c == b'1', "in range, lower end");
+        kani::cover!(r.is_err() && c == b'0', "zero");
+        kani::cover!(r.is_err() && c == b'4', "out of range");
+        kani::cover!(r.is_err() && c == b'-', "double sign");
+        kani::cover!(r.is_err() && c == b' ', "blank after sign");
+        kani::cover!(r.is_err() && c == b'\r', "carriage return");
+        kani::cover!(r.is_err() && c == 0xff, "non-ASCII byte");
+        core::mem::forget(r);
+    }
+
+    template!(t_root2, 2, b".ver DDDMP-2.0\n.mode A\n.varinfo 4\n.nnodes 3\n.nvars 3\n.nsuppvars 2\n.ids 0 2\n.permids 1 0\n.nroots 2\n.rootids 2 ##\n.nodes\n");
+
+    /// `.rootids 2 SD`: S in {'-', ' ', digit}, D digit (sign + digit, one digit, or two digits)
+    /// at the END of the line.  valid iff the denoted integer v satisfies v != 0 and |v| <= 3.
+    #[kani::proof]
+    #[kani::unwind(17)]
+    #[kani::stub(alloc::fmt::format, stub_format)]
+    #[kani::stub(core::arch::x86_64::__cpuid_count, stub_cpuid)]
+    #[kani::stub(alloc::string::String::from_utf8_lossy, stub_lossy)]
+    fn rootids_sign_and_digit() {
+        use t_root2::*;
+        let mut buf = T;
+        let (s, d): (u8, u8) = (kani::any(), kani::any());
+        kani::assume(s == b'-' || s == b' ' || digit(s));
+        kani::assume(digit(d));
+        buf[H0] = s;
+        buf[H1] = d;
+        let (r, done) = load_from(&buf, &E);
+        let dv = (d - b'0') as isize;
+        let v: isize = if s == b'-' {
+            -dv
+        } else if s == b' ' {
+            dv
+        } else {
+            10 * (s - b'0') as isize + dv
+        };
+        let valid = v != 0 && v >= -3 && v <= 3;
+        match &r {
+            Ok(h) => {
+                assert!(valid, "(R) root id 0 or |id| > nnodes must be rejected");
+                check_invariant::<2, 2>(h);
+                check_t1_mode(h);
+                check_t1_support(h);
+                assert!(h.nnodes == 3 && h.nvars == 3);
+                assert!(h.rootids.len() == 2 && h.rootids[0] == 2 && h.rootids[1] == v, "metadata: .rootids");
+                assert!(done);
+            }
+            Err(_) => assert!(!valid, "a header satisfying all documented requirements is accepted"),
+        }
+        kani::cover!(r.is_ok() && v == -3, "negative, in range");
+        kani::cover!(r.is_ok() && v == 3 && s == b'0', "leading zero");
+        kani::cover!(r.is_err() && v == 0 && s == b'-', "minus zero");
+        kani::cover!(r.is_err() && v == -4, "negative, out of range");
+        kani::cover!(r.is_err() && v == 13, "two digits, out of range");
+        kani::cover!(v == 99, "assumed region");
+        core::mem::forget(r);
+    }
+
+    // ---------------- .ids
+    template!(t_ids, 2, b".ver DDDMP-2.0\n.mode A\n.varinfo 4\n.nnodes 3\n.nvars 3\n.nsuppvars 2\n.ids # #\n.permids 1 0\n.nroots 2\n.rootids 2 -3\n.nodes\n");
+
+    /// `.ids A B`, A and B any bytes but `\n`.  Documented (support_vars()): num_support_vars()
+    /// (=2) integers in strictly ascending order, indices of the original numbering (< nvars = 3).
+    /// valid iff both are digits and A < B < 3.
+    #[kani::proof]
+    #[kani::unwind(17)]
+    #[kani::stub(alloc::fmt::format, stub_format)]
+    #[kani::stub(core::arch::x86_64::__cpuid_count, stub_cpuid)]
+    #[kani::stub(alloc::string::String::from_utf8_lossy, stub_lossy)]
+    fn ids_two_bytes() {
+        use t_ids::*;
+        let mut buf = T;
+        let (a, b): (u8, u8) = (kani::any(), kani::any());
+        kani::assume(a != b'\n' && b != b'\n');
+        buf[H0] = a;
+        buf[H1] = b;
+        let (r, done) = load_from(&buf, &E);
+        let valid = digit(a) && digit(b) && a < b && b < b'3';
+        match &r {
+            Ok(h) => {
+                assert!(valid, "(R) .ids not ascending / >= nvars / wrong count / malformed must be rejected");
+                check_invariant::<2, 2>(h);
+                check_t1_mode(h);
+                assert!(h.nnodes == 3 && h.nvars == 3);
+                assert!(h.ids.len() == 2 && h.ids[0] == (a - b'0') as u32 && h.ids[1] == (b - b'0') as u32, "metadata: .ids");
+                assert!(h.permids[0] == 1 && h.permids[1] == 0, "metadata: .permids");
+                assert!(h.support_var_order[0] == h.ids[1] && h.support_var_order[1] == h.ids[0], "second support variable is on level 0");
+                assert!(h.rootids.len() == 2 && h.rootids[0] == 2 && h.rootids[1] == -3);
+                assert!(done);
+            }
+            Err(_) => assert!(!valid, "a header satisfying all documented requirements is accepted"),
+        }
+        kani::cover!(r.is_ok() && a == b'1' && b == b'2', "in range");
+        kani::cover!(r.is_err() && a == b'2' && b == b'2', "duplicate");
+        kani::cover!(r.is_err() && a == b'2' && b == b'1', "descending");
+        kani::cover!(r.is_err() && a == b'0' && b == b'3', "out of range (== nvars)");
+        kani::cover!(r.is_err() && a == b' ' && b == b'1', "too few entries");
+        kani::cover!(r.is_err() && a == b'-', "sign not allowed");
+        kani::cover!(r.is_err() && b == b'\r', "carriage return");
+        core::mem::forget(r);
+    }
+
+    // ---------------- .permids
+    template!(t_perm, 2, b".ver DDDMP-2.0\n.mode A\n.varinfo 4\n.nnodes 3\n.nvars 3\n.nsuppvars 2\n.ids 0 2\n.permids # #\n.nroots 2\n.rootids 2 -3\n.nodes\n");
+
+    /// `.permids P Q`, any bytes but `\n`.  Documented (support_var_to_level()): one level per
+    /// support variable; levels are positions in the variable order (< nvars = 3), so distinct.
+    /// valid iff both digits, P != Q, P < 3, Q < 3.  Ok => support_var_order sorted by level.
+    #[kani::proof]
+    #[kani::unwind(17)]
+    #[kani::stub(alloc::fmt::format, stub_format)]
+    #[kani::stub(core::arch::x86_64::__cpuid_count, stub_cpuid)]
+    #[kani::stub(alloc::string::String::from_utf8_lossy, stub_lossy)]
+    fn permids_two_bytes() {
+        use t_perm::*;
+        let mut buf = T;
+        let (p, q): (u8, u8) = (kani::any(), kani::any());
+        kani::assume(p != b'\n' && q != b'\n');
+        buf[H0] = p;
+        buf[H1] = q;
+        let (r, done) = load_from(&buf, &E);
+        let valid = digit(p) && digit(q) && p != q && p < b'3' && q < b'3';
+        match &r {
+            Ok(h) => {
+                assert!(valid, "(R) duplicate / out-of-range / malformed .permids must be rejected");
+                check_invariant::<2, 2>(h);
+                check_t1_mode(h);
+                assert!(h.nnodes == 3 && h.nvars == 3);
+                assert!(h.ids.len() == 2 && h.ids[0] == 0 && h.ids[1] == 2, "metadata: .ids");
+                assert!(h.permids.len() == 2 && h.permids[0] == (p - b'0') as u32 && h.permids[1] == (q - b'0') as u32, "metadata: .permids");
+                if p < q {
+                    assert!(h.support_var_order[0] == 0 && h.support_var_order[1] == 2, "order by level");
+                } else {
+                    assert!(h.support_var_order[0] == 2 && h.support_var_order[1] == 0, "order by level");
+                }
+                assert!(h.rootids.len() == 2 && h.rootids[0] == 2 && h.rootids[1] == -3);
+                assert!(done);
+            }
+            Err(_) => assert!(!valid, "a header satisfying all documented requirements is accepted"),
+        }
+        kani::cover!(r.is_ok() && p == b'0' && q == b'2', "in range, ascending");
+        kani::cover!(r.is_ok() && p == b'2' && q == b'1', "in range, descending");
+        kani::cover!(r.is_err() && p == b'1' && q == b'1', "duplicate");
+        kani::cover!(r.is_err() && p == b'0' && q == b'3', "out of range (== nvars)");
+        kani::cover!(r.is_err() && p == b'9', "out of range");
+        kani::cover!(r.is_err() && p == b' ' && q == b'1', "too few entries");
+        core::mem::forget(r);
+    }
+
+    // ---------------- .nnodes
+    template!(t_nnodes, 1, b".ver DDDMP-2.0\n.mode A\n.varinfo 4\n.nnodes #\n.nvars 3\n.nsuppvars 2\n.ids 0 2\n.permids 1 0\n.nroots 2\n.rootids 2 -3\n.nodes\n");
+
+    /// `.nnodes B`, any byte but `\n`; roots are 2 and -3.  valid iff B is a digit >= 3.
+    #[kani::proof]
+    #[kani::unwind(17)]
+    #[kani::stub(alloc::fmt::format, stub_format)]
+    #[kani::stub(core::arch::x86_64::__cpuid_count, stub_cpuid)]
+    #[kani::stub(alloc::string::String::from_utf8_lossy, stub_lossy)]
+    fn nnodes_one_byte() {
+        use t_nnodes::*;
+        let mut buf = T;
+        let c: u8 = kani::any();
+        kani::assume(c != b'\n');
+        buf[H0] = c;
+        let (r, done) = load_from(&buf, &E);
+        let valid = digit(c) && c >= b'3';
+        match &r {
+            Ok(h) => {
+                assert!(valid, "(R) a root id beyond .nnodes must be rejected");
+                check_invariant::<2, 2>(h);
+                check_t1_mode(h);
+                check_t1_support(h);
+                assert!(h.nnodes == (c - b'0') as usize && h.nvars == 3, "metadata: .nnodes");
+                assert!(h.rootids.len() == 2 && h.rootids[0] == 2 && h.rootids[1] == -3);
+                assert!(done);
+            }
+            Err(_) => assert!(!valid, "a header satisfying all documented requirements is accepted"),
+        }
+        kani::cover!(r.is_ok() && c == b'3', "exactly enough nodes");
+        kani::cover!(r.is_ok() && c == b'9', "more nodes");
+        kani::cover!(r.is_err() && c == b'2', "root beyond nnodes");
+        kani::cover!(r.is_err() && c == b'0', "zero nodes");
+        kani::cover!(r.is_err() && c == b'-', "negative");
+        kani::cover!(r.is_err() && c == b' ', "missing value");
+        kani::cover!(r.is_err() && c == b'\r', "carriage return only");
+        core::mem::forget(r);
+    }
+
+    // ---------------- .mode / .varinfo
+    template!(t_mode, 2, b".ver DDDMP-2.0\n.mode #\n.varinfo #\n.nnodes 3\n.nvars 3\n.nsuppvars 2\n.ids 0 2\n.permids 1 0\n.nroots 2\n.rootids 2 -3\n.nodes\n");
+
+    /// `.mode M` / `.varinfo V`, any bytes but `\n`.  Documented: `.mode A|B`; .varinfo 0..=4.
+    #[kani::proof]
+    #[kani::unwind(17)]
+    #[kani::stub(alloc::fmt::format, stub_format)]
+    #[kani::stub(core::arch::x86_64::__cpuid_count, stub_cpuid)]
+    #[kani::stub(alloc::string::String::from_utf8_lossy, stub_lossy)]
+    fn mode_varinfo_bytes() {
+        use t_mode::*;
+        let mut buf = T;
+        let (m, v): (u8, u8) = (kani::any(), kani::any());
+        kani::assume(m != b'\n' && v != b'\n');
+        buf[H0] = m;
+        buf[H1] = v;
+        let (r, done) = load_from(&buf, &E);
+        let valid = (m == b'A' || m == b'B') && v >= b'0' && v <= b'4';
+        match &r {
+            Ok(h) => {
+                assert!(valid, "(R) unknown .mode / .varinfo must be rejected");
+                check_invariant::<2, 2>(h);
+                check_t1_support(h);
+                assert!(h.ascii == (m == b'A'), "metadata: .mode");
+                let vi = match v {
+                    b'0' => VarInfo::VariableID,
+                    b'1' => VarInfo::PermutationID,
+                    b'2' => VarInfo::AuxiliaryID,
+                    b'3' => VarInfo::VariableName,
+                    _ => VarInfo::None,
+                };
+                assert!(h.varinfo == vi, "metadata: .varinfo");
+                assert!(h.nnodes == 3 && h.nvars == 3);
+                assert!(h.rootids.len() == 2 && h.rootids[0] == 2 && h.rootids[1] == -3);
+                assert!(done);
+            }
+            Err(_) => assert!(!valid, "a header satisfying all documented requirements is accepted"),
+        }
+        kani::cover!(r.is_ok() && m == b'B' && v == b'0', "binary mode");
+        kani::cover!(r.is_ok() && m == b'A' && v == b'4', "ascii mode");
+        kani::cover!(r.is_err() && m == b'C', "unknown mode");
+        kani::cover!(r.is_err() && m == b'A' && v == b'5', "unknown varinfo");
+        kani::cover!(r.is_err() && m == b' ', "missing mode");
+        core::mem::forget(r);
+    }
+
+    // ---------------- counts (.nvars / .nsuppvars / .nroots): the loader allocates by these
+    // numbers, so every value is run with a CONCRETE digit (no symbolic allocation sizes)
+
+    template!(t_nvars, 1, b".ver DDDMP-2.0\n.mode A\n.varinfo 4\n.nnodes 3\n.nvars #\n.nsuppvars 2\n.ids 0 2\n.permids 1 0\n.nroots 2\n.rootids 2 -3\n.nodes\n");
+
+    /// `.nvars D`, D digit; support is {0, 2} on levels {1, 0}, .nsuppvars 2.
+    /// valid iff D >= 3 (all ids / levels < nvars, nsuppvars <= nvars).
+    #[kani::proof]
+    #[kani::unwind(17)]
+    #[kani::stub(alloc::fmt::format, stub_format)]
+    #[kani::stub(core::arch::x86_64::__cpuid_count, stub_cpuid)]
+    #[kani::stub(alloc::string::String::from_utf8_lossy, stub_lossy)]
+    fn nvars_digit() {
+        use t_nvars::*;
+        let d: u8 = kani::any();
+        kani::assume(digit(d));
+        let k = d;
+        {
+            {
+                let mut buf = T;
+                buf[H0] = k;
+                let (r, done) = load_from(&buf, &E);
+                let valid = k >= b'3';
+                match &r {
+                    Ok(h) => {
+                        assert!(valid, "(R) .ids / .permids entry >= .nvars or .nsuppvars > .nvars must be rejected");
+                        check_invariant::<2, 2>(h);
+                        check_t1_mode(h);
+                        check_t1_support(h);
+                        assert!(h.nvars == (k - b'0') as u32 && h.nnodes == 3, "metadata: .nvars");
+                        assert!(h.rootids.len() == 2 && h.rootids[0] == 2 && h.rootids[1] == -3);
+                        assert!(done);
+                    }
+                    Err(_) => assert!(!valid, "a header satisfying all documented requirements is accepted"),
+                }
+                kani::cover!(r.is_ok() && k == b'3', "just enough variables");
+                kani::cover!(r.is_ok() && k == b'9', "unused variables");
+                kani::cover!(r.is_err() && k == b'2', "id == nvars");
+                kani::cover!(r.is_err() && k == b'1', "nsuppvars > nvars");
+                kani::cover!(r.is_err() && k == b'0', "no variables");
+                core::mem::forget(r);
+            }
+        }
+    }
+
+    template!(t_nsupp, 1, b".ver DDDMP-2.0\n.mode A\n.varinfo 4\n.nnodes 3\n.nvars 3\n.nsuppvars #\n.ids 0 2\n.permids 1 0\n.nroots 2\n.rootids 2 -3\n.nodes\n");
+
+    /// `.nsuppvars D`, D digit; two entries in .ids / .permids.  valid iff D == 2.
+    #[kani::proof]
+    #[kani::unwind(17)]
+    #[kani::stub(alloc::fmt::format, stub_format)]
+    #[kani::stub(core::arch::x86_64::__cpuid_count, stub_cpuid)]
+    #[kani::stub(alloc::string::String::from_utf8_lossy, stub_lossy)]
+    fn nsuppvars_digit() {
+        use t_nsupp::*;
+        let d: u8 = kani::any();
+        kani::assume(digit(d));
+        let k = d;
+        {
+            {
+                let mut buf = T;
+                buf[H0] = k;
+                let (r, done) = load_from(&buf, &E);
+                let valid = k == b'2';
+                match &r {
+                    Ok(h) => {
+                        assert!(valid, "(R) .nsuppvars different from the number of .ids / .permids entries must be rejected");
+                        check_invariant::<2, 2>(h);
+                        check_t1_mode(h);
+                        check_t1_support(h);
+                        assert!(h.nvars == 3 && h.nnodes == 3);
+                        assert!(h.rootids.len() == 2 && h.rootids[0] == 2 && h.rootids[1] == -3);
+                        assert!(done);
+                    }
+                    Err(_) => assert!(!valid, "a header satisfying all documented requirements is accepted"),
+                }
+                kani::cover!(r.is_ok() && k == b'2', "matching count");
+                kani::cover!(r.is_err() && k == b'3', "announces more than listed");
+                kani::cover!(r.is_err() && k == b'1', "announces fewer than listed");
+                kani::cover!(r.is_err() && k == b'4', "more than nvars");
+                core::mem::forget(r);
+            }
+        }
+    }
+
+    template!(t_nroots, 1, b".ver DDDMP-2.0\n.mode A\n.varinfo 4\n.nnodes 3\n.nvars 3\n.nsuppvars 2\n.ids 0 2\n.permids 1 0\n.nroots #\n.rootids 2 -3\n.nodes\n");
+
+    /// `.nroots D`, D digit; two entries in .rootids.  valid iff D == 2 ("import() returns
+    /// this number of roots").
+    #[kani::proof]
+    #[kani::unwind(17)]
+    #[kani::stub(alloc::fmt::format, stub_format)]
+    #[kani::stub(core::arch::x86_64::__cpuid_count, stub_cpuid)]
+    #[kani::stub(alloc::string::String::from_utf8_lossy, stub_lossy)]
+    fn nroots_digit() {
+        use t_nroots::*;
+        let d: u8 = kani::any();
+        kani::assume(digit(d));
+        let k = d;
+        {
+            {
+                let mut buf = T;
+                buf[H0] = k;
+                let (r, done) = load_from(&buf, &E);
+                let valid = k == b'2';
+                match &r {
+                    Ok(h) => {
+                        assert!(valid, "(R) .nroots different from the number of .rootids entries must be rejected");
+                        check_invariant::<2, 2>(h);
+                        check_t1_mode(h);
+                        check_t1_support(h);
+                        assert!(h.nvars == 3 && h.nnodes == 3);
+                        assert!(h.rootids.len() == (k - b'0') as usize, "num_roots() == .nroots");
+                        assert!(h.rootids[0] == 2 && h.rootids[1] == -3);
+                        assert!(done);
+                    }
+                    Err(_) => assert!(!valid, "a header satisfying all documented requirements is accepted"),
+                }
+                kani::cover!(r.is_ok() && k == b'2', "matching count");
+                kani::cover!(r.is_err() && k == b'3', "announces more than listed");
+                kani::cover!(r.is_err() && k == b'1', "announces fewer than listed");
+                kani::cover!(r.is_err() && k == b'0', "announces none");
+                core::mem::forget(r);
+            }
+        }
+    }
+
+    // `.nroots` = usize::MAX (concrete: the loader reserves memory by this number), one open root digit
+    template!(t_nroots_huge, 1, b".ver DDDMP-2.0\n.mode A\n.varinfo 4\n.nnodes 3\n.nvars 3\n.nsuppvars 2\n.ids 0 2\n.permids 1 0\n.nroots 18446744073709551615\n.rootids -# 2\n.nodes\n");
+
+    /// `.nroots 18446744073709551615` with two entries in .rootids (`-D 2`, D digit): malformed for
+    /// every D (count mismatch).  (P) no panic, (R) Err.
+    #[kani::proof]
+    #[kani::unwind(31)]
+    #[kani::stub(alloc::fmt::format, stub_format)]
+    #[kani::stub(core::arch::x86_64::__cpuid_count, stub_cpuid)]
+    #[kani::stub(alloc::string::String::from_utf8_lossy, stub_lossy)]
+    fn nroots_usize_max() {
+        use t_nroots_huge::*;
+        let mut buf = T;
+        let d: u8 = kani::any();
+        kani::assume(digit(d));
+        kani::cover!(d == b'3', "root ids themselves valid");
+        kani::cover!(d == b'9', "assumed region");
+        buf[H0] = d;
+        let (r, _) = load_from(&buf, &E);
+        assert!(r.is_err(), "(R) .nroots does not match the number of .rootids entries");
+        core::mem::forget(r);
+    }
+
+    // ---------------- integer boundaries (20-digit numbers; usize::MAX = 18446744073709551615)
+    template!(t_nnodes_max, 1, b".ver DDDMP-2.0\n.mode A\n.varinfo 4\n.nnodes 1844674407370955161#\n.nvars 3\n.nsuppvars 2\n.ids 0 2\n.permids 1 0\n.nroots 2\n.rootids 2 -3\n.nodes\n");
+
+    /// `.nnodes 1844674407370955161D`: "Fails if ... the integer is too large for the return
+    /// type".  D <= 5: Ok with exactly that value (no wrap-around); D > 5: Err.
+    #[kani::proof]
+    #[kani::unwind(31)]
+    #[kani::stub(alloc::fmt::format, stub_format)]
+    #[kani::stub(core::arch::x86_64::__cpuid_count, stub_cpuid)]
+    #[kani::stub(alloc::string::String::from_utf8_lossy, stub_lossy)]
+    fn nnodes_usize_boundary() {
+        use t_nnodes_max::*;
         let mut buf = T;
         let d: u8 = kani::any();
         kani::assume(digit(d));
         buf[H0] = d;
+        let (r, done) = load_from(&buf, &E);
+        let valid = d <= b'5';
+        match &r {
+            Ok(h) => {
+                assert!(valid, "(R) a number that does not fit into usize must be rejected, not wrapped");
+                check_invariant::<2, 2>(h);
+                check_t1_mode(h);
+                check_t1_support(h);
+                assert!(h.nnodes == 18446744073709551610usize + (d - b'0') as usize, "metadata: .nnodes exact");
+                assert!(h.nvars == 3 && h.rootids[0] == 2 && h.rootids[1] == -3);
+                assert!(done);
+            }
+            Err(_) => assert!(!valid, "a header satisfying all documented requirements is accepted"),
+        }
+        kani::cover!(r.is_ok() && d == b'5', "usize::MAX");
+        kani::cover!(r.is_err() && d == b'6', "usize::MAX + 1");
+        kani::cover!(r.is_err() && d == b'9', "assumed region");
+        core::mem::forget(r);
+    }
+
+    // isize::MIN = -9223372036854775808
+    template!(t_root_min, 1, b".ver DDDMP-2.0\n.mode A\n.varinfo 4\n.nnodes 3\n.nvars 3\n.nsuppvars 2\n.ids 0 2\n.permids 1 0\n.nroots 2\n.rootids -922337203685477580# 2\n.nodes\n");
+
+    /// `.rootids -922337203685477580D 2` around isize::MIN: (P) no overflow panic in the sign
+    /// handling / `unsigned_abs`; (R) always Err (|id| > nnodes = 3, or not representable).
+    #[kani::proof]
+    #[kani::unwind(36)]
+    #[kani::stub(alloc::fmt::format, stub_format)]
+    #[kani::stub(core::arch::x86_64::__cpuid_count, stub_cpuid)]
+    #[kani::stub(alloc::string::String::from_utf8_lossy, stub_lossy)]
+    fn rootids_isize_boundary() {
+        use t_root_min::*;
+        let mut buf = T;
+        let d: u8 = kani::any();
+        kani::assume(digit(d));
+        buf[H0] = d;
+        let (r, _) = load_from(&buf, &E);
+        assert!(r.is_err(), "(R) root id far beyond .nnodes must be rejected");
+        kani::cover!(d == b'7', "-isize::MAX");
+        kani::cover!(d == b'8', "isize::MIN");
+        kani::cover!(d == b'9', "below isize::MIN");
+        core::mem::forget(r);
+    }
+
+    // ---------------- truncated files
+    template!(t_full, 0, b".ver DDDMP-2.0\n.mode A\n.varinfo 4\n.nnodes 3\n.nvars 3\n.nsuppvars 2\n.ids 0 2\n.permids 1 0\n.nroots 2\n.rootids 2 -3\n.nodes\n");
+
+    /// The (concrete) template cut off after K complete lines, K symbolic in 0..=11: a header
+    /// without its `.nodes` line is rejected ("unexpected end of file"); K = 11 is the full header.
+    #[kani::proof]
+    #[kani::unwind(17)]
+    #[kani::stub(alloc::fmt::format, stub_format)]
+    #[kani::stub(core::arch::x86_64::__cpuid_count, stub_cpuid)]
+    #[kani::stub(alloc::string::String::from_utf8_lossy, stub_lossy)]
+    fn truncated_after_k_lines() {
+        use t_full::*;
+        let buf = T;
+        let k: usize = kani::any();
+        kani::assume(k <= N);
         let mut inp = LineRd::new(&buf, &E);
+        inp.limit = k;
         let r = DumpHeader::load(&mut inp);
-        let v = d - b'0';
-        assert!(r.is_ok() == (v != 0 && v <= 3));
+        match &r {
+            Ok(h) => {
+                assert!(k == N, "(R) a header that ends before .nodes must be rejected");
+                check_invariant::<2, 2>(h);
+                check_t1_mode(h);
+                check_t1_support(h);
+                assert!(h.nnodes == 3 && h.nvars == 3 && h.rootids[0] == 2 && h.rootids[1] == -3);
+            }
+            Err(_) => assert!(k < N, "the complete header is accepted"),
+        }
+        kani::cover!(r.is_ok(), "complete header");
+        kani::cover!(r.is_err() && k == 0, "empty file");
+        kani::cover!(r.is_err() && k == N - 1, "only .nodes missing");
+        core::mem::forget(r);
+    }
+
+    // ------------------------------------------------------------------ template T2: names
+    // T1 plus `.orderedvarnames c a b` (names by level) and `.rootnames f g`
+
+    template!(t_names, 2, b".ver DDDMP-2.0\n.mode A\n.varinfo 4\n.nnodes 3\n.nvars 3\n.nsuppvars 2\n.orderedvarnames c a b\n.ids 0 2\n.permids # #\n.nroots 2\n.rootids 2 -3\n.rootnames f g\n.nodes\n");
+
+    /// `.permids P Q` (digits) with `.orderedvarnames c a b` as the only name table.  Documented
+    /// (var_names()): nvars names in the ORIGINAL variable order, all non-empty; the support
+    /// variable ids[i] is the one on level permids[i], so it carries the name at that position.
+    /// valid iff P != Q, both < 3.
+    #[kani::proof]
+    #[kani::unwind(26)]
+    #[kani::stub(alloc::fmt::format, stub_format)]
+    #[kani::stub(core::arch::x86_64::__cpuid_count, stub_cpuid)]
+    fn orderedvarnames_permids_digits() {
+        use t_names::*;
+        let mut buf = T;
+        let (p, q): (u8, u8) = (kani::any(), kani::any());
+        kani::assume(digit(p) && digit(q));
+        buf[H0] = p;
+        buf[H1] = q;
+        let (r, done) = load_from(&buf, &E);
+        let valid = p != q && p < b'3' && q < b'3';
+        match &r {
+            Ok(h) => {
+                assert!(valid, "(R) duplicate / out-of-range .permids must be rejected");
+                check_invariant::<2, 2>(h);
+                assert!(h.nvars == 3 && h.ids[0] == 0 && h.ids[1] == 2);
+                let ord = [b'c', b'a', b'b'];
+                let (pi, qi) = ((p - b'0') as usize, (q - b'0') as usize);
+                assert!(h.varnames.len() == 3, "var_names(): nvars entries");
+                let n0 = h.varnames[0].as_bytes();
+                let n1 = h.varnames[1].as_bytes();
+                let n2 = h.varnames[2].as_bytes();
+                assert!(n0.len() == 1 && n1.len() == 1 && n2.len() == 1, "all names non-empty (single letters here)");
+                assert!(n0[0] == ord[pi], "variable ids[0]=0 is on level P");
+                assert!(n2[0] == ord[qi], "variable ids[1]=2 is on level Q");
+                assert!(n1[0] == ord[3 - pi - qi], "the unused variable gets the remaining name");
+                assert!(h.rootnames.len() == 2, "root_names(): one per root");
+                assert!(h.rootnames[0].as_bytes() == b"f" && h.rootnames[1].as_bytes() == b"g", "metadata: .rootnames");
+                assert!(done);
+            }
+            Err(_) => assert!(!valid, "a header satisfying all documented requirements is accepted"),
+        }
+        kani::cover!(r.is_ok() && p == b'1' && q == b'0', "valid, descending levels");
+        kani::cover!(r.is_ok() && p == b'0' && q == b'2', "valid, ascending levels");
+        kani::cover!(r.is_err() && p == b'3', "level == nvars (index past the name table)");
+        kani::cover!(r.is_err() && p == q, "duplicate level");
+        core::mem::forget(r);
+    }
+
+    // ------------------------------------------------------------------ self tests (must FAIL)
+
+    /// selftest: claims every digit is an acceptable root id -- must be refuted
+    #[kani::proof]
+    #[kani::unwind(17)]
+    #[kani::stub(alloc::fmt::format, stub_format)]
+    #[kani::stub(core::arch::x86_64::__cpuid_count, stub_cpuid)]
+    #[kani::stub(alloc::string::String::from_utf8_lossy, stub_lossy)]
+    fn selftest_every_root_digit_accepted() {
+        use t_root1::*;
+        let mut buf = T;
+        let c: u8 = kani::any();
+        kani::assume(digit(c));
+        buf[H0] = c;
+        let (r, _) = load_from(&buf, &E);
+        assert!(r.is_ok(), "SELFTEST: deliberately wrong");
+        core::mem::forget(r);
+    }
+
+    /// selftest: claims support_var_order() == support_vars() (ignores the levels) -- must be refuted
+    #[kani::proof]
+    #[kani::unwind(17)]
+    #[kani::stub(alloc::fmt::format, stub_format)]
+    #[kani::stub(core::arch::x86_64::__cpuid_count, stub_cpuid)]
+    #[kani::stub(alloc::string::String::from_utf8_lossy, stub_lossy)]
+    fn selftest_order_is_identity() {
+        use t_root1::*;
+        let mut buf = T;
+        let c: u8 = kani::any();
+        kani::assume(c >= b'1' && c <= b'3');
+        buf[H0] = c;
+        let (r, _) = load_from(&buf, &E);
+        if let Ok(h) = &r {
+            assert!(h.support_var_order[0] == h.ids[0] && h.support_var_order[1] == h.ids[1], "SELFTEST: deliberately wrong");
+        }
         core::mem::forget(r);
     }
 }
